@@ -1,6 +1,7 @@
 package props
 
 import (
+	"bytes"
 	"context"
 	"encoding/json"
 	"fmt"
@@ -386,10 +387,29 @@ func runNodeIn(c *Ctx, dir string, cases []jsCase, tag string, mode ...string) (
 	op := filepath.Join(scratch, "c20-out-"+tag+".json")
 	b, _ := json.Marshal(cases)
 	os.WriteFile(cp, b, 0o644)
-	ctx, cancel := context.WithTimeout(context.Background(), 10*time.Minute)
-	defer cancel()
-	cmd := exec.CommandContext(ctx, "node", append([]string{drv, dir, cp, op}, mode...)...)
-	outB, err := cmd.CombinedOutput()
+	// a watchdog, not a verdict: when it fires, the CPU time node has used tells a hang (spinning) from a stall
+	limit := 10 * time.Minute
+	if len(mode) > 0 {
+		limit = 90 * time.Second
+	}
+	cmd := exec.Command("node", append([]string{drv, dir, cp, op}, mode...)...)
+	var outBuf bytes.Buffer
+	cmd.Stdout, cmd.Stderr = &outBuf, &outBuf
+	err := cmd.Start()
+	if err == nil {
+		waited := make(chan error, 1)
+		go func() { waited <- cmd.Wait() }()
+		select {
+		case err = <-waited:
+		case <-time.After(limit):
+			cpu := procCPUSeconds(cmd.Process.Pid)
+			cmd.Process.Kill()
+			<-waited
+			os.Remove(op)
+			return nil, clipS(outBuf.String()), &nodeHang{limit: limit, cpuSeconds: cpu}
+		}
+	}
+	outB := outBuf.Bytes()
 	tail := string(outB)
 	if len(tail) > 2000 {
 		tail = tail[len(tail)-2000:]
@@ -403,6 +423,34 @@ func runNodeIn(c *Ctx, dir string, cases []jsCase, tag string, mode ...string) (
 		return nil, tail, jerr
 	}
 	return &no, tail, nil
+}
+
+// nodeHang: node did not finish within the watchdog's limit; cpuSeconds is what it had used by then.
+type nodeHang struct {
+	limit      time.Duration
+	cpuSeconds float64
+}
+
+func (h *nodeHang) Error() string {
+	return fmt.Sprintf("node did not finish within %v (CPU time used: %.0f s)", h.limit, h.cpuSeconds)
+}
+
+func procCPUSeconds(pid int) float64 {
+	b, err := os.ReadFile(fmt.Sprintf("/proc/%d/stat", pid))
+	if err != nil {
+		return 0
+	}
+	s := string(b)
+	if i := strings.LastIndexByte(s, ')'); i >= 0 {
+		f := strings.Fields(s[i+1:])
+		if len(f) > 12 {
+			var ut, st float64
+			fmt.Sscan(f[11], &ut)
+			fmt.Sscan(f[12], &st)
+			return (ut + st) / 100
+		}
+	}
+	return 0
 }
 
 func judgeJS(c *Ctx, k jsCase, path string, got jsVal) {
@@ -566,6 +614,12 @@ func c20Reinit(c *Ctx) {
 	sub.RNG = c.RNG.Fork(2077)
 	cases := c20Cases(&sub, c.N(2500, 30000))
 	no, tail, err := runNodeIn(c, c.Env["VERIF_JS_DIR"], cases, "reinit", "reinit")
+	if h, ok := err.(*nodeHang); ok && h.cpuSeconds > 0.5*h.limit.Seconds() {
+		r.Eval(1)
+		r.Violate("C20|module|hangs|after-repeated-initialisation", "after the package's entry function has been called again in the same process (once right after a call with a 1 MiB string argument), node stops making progress while using a full CPU: no call returns any more", "none",
+			map[string]any{"history": "initWasm(); generateHOTP(<1 MiB string>, 1, \"6\", \"SHA1\"); initWasm(); 2 s of event loop; initWasm(); calls"}, "every call returns", h.Error()+" "+clipS(tail))
+		return
+	}
 	if err != nil || no == nil || no.Fatal != "" {
 		msg := fmt.Sprint(err)
 		if no != nil && no.Fatal != "" {
